@@ -918,7 +918,8 @@ func applyRouteMiddleware(mws []middleware, base HandlerFunc) (HandlerFunc, Hand
 // and writes a small HTML body. Setting the Content-Type header to any value, including nil, disables that behavior.
 func localRedirect(w http.ResponseWriter, r *http.Request, path string, code int) {
 	if q := r.URL.RawQuery; q != "" {
-		path += "?" + q
+		// Like RawPath, the raw query is what the client sent: a '#' in it would end the query at the client.
+		path += "?" + escapeIllegalPathBytes(q)
 	}
 
 	h := w.Header()
